@@ -41,7 +41,7 @@ func init() {
 				return 150_000
 			}, Run: c15Gradient,
 				Min: map[string]int64{"gradients": 20000, "probes": 1000000, "exact_integer_offsets": 2000, "exact_odd_integer_reflect": 100, "exact_stop_offsets": 1000, "negative_offsets": 50000, "offsets_above_1": 50000, "offsets_inside_0_1": 200000,
-					"spread_none": 10000, "spread_pad": 10000, "spread_reflect": 10000, "spread_repeat": 10000, "radial": 100000, "linear": 100000, "transparent_outside": 1000, "dyadic_gradients": 5000, "far_offset_gradients": 3000, "gradients_after_another_gradient": 20000, "same_gradient_after_retargeting": 20000}},
+					"spread_none": 10000, "spread_pad": 10000, "spread_reflect": 10000, "spread_repeat": 10000, "radial": 100000, "linear": 100000, "transparent_outside": 1000, "dyadic_gradients": 5000, "far_offset_gradients": 3000, "gradients_after_another_gradient": 20000, "same_gradient_after_retargeting": 20000, "gradient_after_an_unpainted_path": 20000}},
 			{Name: "pixels", N: func(t string) uint64 {
 				if t == "thorough" {
 					return 1_000_000
@@ -438,6 +438,25 @@ func c15DrawAndJudge(c *run.Ctx, zp *render.Renderer, rz *rec.Raster, q *c15Grad
 	rz.Probes = pts
 	ok := c.Guard("gradient", func() interface{} { return q.desc() }, func() {
 		if setup {
+			if r.Chance(1, 4) {
+				// the path before this one was not painted (transparent colour, a colour
+				// that is not premultiplied, or a height outside the level-of-detail range)
+				zp.SetCSel(7)
+				switch r.Intn(3) {
+				case 0:
+					zp.SetCReg(0, false, ivg.RGBAColor(color.RGBA{}))
+				case 1:
+					zp.SetCReg(0, false, ivg.RGBAColor(color.RGBA{0xff, 0, 0, 0x10}))
+				default:
+					zp.SetCReg(0, false, ivg.RGBAColor(color.RGBA{0, 0x80, 0, 0xff}))
+					zp.SetLOD(9000, 9001)
+				}
+				zp.StartPath(0, q.vb.MinX, q.vb.MinY)
+				zp.AbsLineTo(q.vb.MaxX, q.vb.MaxY)
+				zp.ClosePathEndPath()
+				zp.SetLOD(0, float32(math.Inf(1)))
+				c.Count("gradient_after_an_unpainted_path", 1)
+			}
 			q.setup(zp, r)
 		}
 		zp.StartPath(0, q.vb.MinX, q.vb.MinY)
